@@ -6,6 +6,9 @@ use crate::debugger::debugee::dwarf::unit::PlaceDescriptorOwned;
 use crate::debugger::error::Error;
 use crate::debugger::error::Error::{NoDebugInformation, NoSuitablePlace, PlaceNotFound};
 use nix::libc::c_void;
+#[cfg(feature = "verif")]
+use crate::verif::sys;
+#[cfg(not(feature = "verif"))]
 use nix::sys;
 use nix::unistd::Pid;
 use std::borrow::Cow;
